@@ -353,6 +353,43 @@ fn gen_token_stream(rng: &mut Rng, enc: &'static Encoding, fam: Family, long: bo
     out
 }
 
+/// Systematic part of the decoder workload: stream number `idx` of the
+/// enumeration of all sequences of one, two, then three tokens over the
+/// family's fragments, edge bytes and a few ASCII bytes (wrapping around).
+/// The schedule (cuts, capacities, sink kinds, faults) stays seeded-random.
+pub fn enumerated_stream(enc: &'static Encoding, idx: u64) -> Vec<u8> {
+    let fam = family(enc);
+    let mut tokens: Vec<Vec<u8>> = fragments(fam).iter().map(|f| f.to_vec()).collect();
+    for &b in edge_alphabet(fam) {
+        if !tokens.iter().any(|t| t.len() == 1 && t[0] == b) {
+            tokens.push(vec![b]);
+        }
+    }
+    for b in [b'a', b'0', 0x7Fu8] {
+        if !tokens.iter().any(|t| t.len() == 1 && t[0] == b) {
+            tokens.push(vec![b]);
+        }
+    }
+    let n = tokens.len() as u64;
+    let total = n + n * n + n * n * n;
+    let mut i = idx % total;
+    let len = if i < n {
+        1
+    } else if i < n + n * n {
+        i -= n;
+        2
+    } else {
+        i -= n + n * n;
+        3
+    };
+    let mut out = Vec::new();
+    for _ in 0..len {
+        out.extend_from_slice(&tokens[(i % n) as usize]);
+        i /= n;
+    }
+    out
+}
+
 pub fn gen_dec_stream(rng: &mut Rng, enc: &'static Encoding, long: bool, bom_bias: bool) -> DecStream {
     let fam = family(enc);
     let mut st = DecStream::default();
